@@ -182,6 +182,9 @@ def make_comment(rng, table, e, targets, allow_blank=True):
                 continue
             lines.append(base + "@see " + link.spelling + rng.choice(["", " ", "  "]))
             exp["see"].append(link.target.scoped())
+            if allow_blank and rng.random() < 0.3:
+                # empty lines after a see tag - a separator before the next tag, or the end of the comment - change nothing
+                lines.extend([""] * rng.choice([1, 1, 2]))
     if not lines:
         text, c = lg.content()
         lines.append(base + text)
